@@ -12,7 +12,8 @@
 (*   C      the cache as state.Cluster keeps it, one operator per update   *)
 (*          path of cluster.go / statenode.go / statenodepool.go:          *)
 (*            cn    nodes[providerID] -> StateNode (Node, NodeClaim, the   *)
-(*                  per-pod maps as sets of pod keys, markedForDeletion)   *)
+(*                  per-pod maps as pod key -> recorded shape, the volume  *)
+(*                  union, markedForDeletion)                              *)
 (*            bind  bindings, n2p nodeNameToProviderID,                    *)
 (*            c2p   nodeClaimNameToProviderID ("-" absent, "" unlaunched)  *)
 (*            pool  nodePoolResources, act/dl/cpm NodePoolState            *)
@@ -32,6 +33,8 @@
 (*                 Node disappeared while its NodeClaim remains            *)
 (*   "podUnbound"  UpdatePod ignores an unbound pod although a binding of  *)
 (*                 the same name (a deleted predecessor) is still tracked  *)
+(*   "volUnion"    VolumeUsage.Add only unions a pod's volumes in, keeping *)
+(*                 what the same pod key contributed before                *)
 (* and, as pure spec mutations for the vacuity check (X_Weak*.cfg):        *)
 (*   "skipOldBindings" cleanupOldBindings omitted                          *)
 (*   "hpCarry"         newStateFromNodeClaim drops hostPortUsage           *)
@@ -48,6 +51,7 @@ CONSTANTS NodeNames, ClaimNames, PodKeys, Pids, Pools,
           MaxLen,       \* generator: length of printed histories
           WithTerm,     \* environment may set InstanceTerminating on a NodeClaim
           WithRestart,  \* Karpenter may restart (empty cache, every object delivered again)
+          PodShapes,    \* shapes the environment may give a pod: {"std"} or {"std", "alt"}
           MaxPend       \* generator bias: with this many deliveries outstanding the environment waits for quiescence
 
 VARIABLES api, pend, C, marks, own, gone, seed, nm, nd, ph, h
@@ -56,12 +60,20 @@ view == <<api, pend, C, marks, own, gone, seed, nm, nd, ph>>
 
 Keys == Pids \cup NodeNames
 
-\* ---------------------------------------------------------------- static pod attributes (by key)
-PodAttr == [p \in PodKeys |->
+\* ---------------------------------------------------------------- pod shapes (by key)
+\* A pod name can be (re-)created with its standard or its alternative shape (other requests, volume, deletion
+\* cost): "pods recreated under the same name" need not be identical.
+Shapes == {"std", "alt"}
+StdAttr == [p \in PodKeys |->
     CASE p = "p1" -> [ds |-> FALSE, cpu |-> 100, mem |-> 64, port |-> "80", vol |-> "va", delCost |-> 134217728, prio |-> 0]
       [] p = "p2" -> [ds |-> TRUE, cpu |-> 50, mem |-> 32, port |-> "-", vol |-> "-", delCost |-> 0, prio |-> 0]
       [] p = "p3" -> [ds |-> FALSE, cpu |-> 200, mem |-> 0, port |-> "81", vol |-> "va", delCost |-> 0 - 268435456, prio |-> 0]
       [] OTHER -> [ds |-> FALSE, cpu |-> 300, mem |-> 128, port |-> "-", vol |-> "vb", delCost |-> 0, prio |-> 33554432]]
+AltVol(v) == IF v = "va" THEN "vb" ELSE "va"
+PodAttr == [p \in PodKeys |-> [sh \in Shapes |->
+    IF sh = "std" THEN StdAttr[p]
+    ELSE [StdAttr[p] EXCEPT !.cpu = @ + 10, !.vol = AltVol(@), !.delCost = 268435456]]]
+ShapeOfRec(rec) == IF rec.cpu = StdAttr[rec.name].cpu THEN "std" ELSE "alt"
 NodeCap0 == [cpu |-> 3900, mem |-> 0]      \* what the kubelet reports at registration
 NodeCap1 == [cpu |-> 3900, mem |-> 8000]   \* ... once initialized
 ClaimCap == [cpu |-> 4000, mem |-> 8192]   \* the NodeClaim's promise
@@ -69,13 +81,16 @@ ClaimCap == [cpu |-> 4000, mem |-> 8192]   \* the NodeClaim's promise
 MkNode(n, pid, pl) == [ex |-> TRUE, name |-> n, pid |-> pid, pool |-> pl, reg |-> FALSE, init |-> FALSE, del |-> FALSE,
                        cap |-> NodeCap0, rv |-> 0]
 MkClaim(c, pl) == [ex |-> TRUE, name |-> c, pid |-> "", pool |-> pl, del |-> FALSE, term |-> FALSE, cap |-> ClaimCap, rv |-> 0]
-MkPod(p, n) == [ex |-> TRUE, name |-> p, node |-> n, term |-> FALSE, ds |-> PodAttr[p].ds, cpu |-> PodAttr[p].cpu,
-                mem |-> PodAttr[p].mem, port |-> PodAttr[p].port, vol |-> PodAttr[p].vol, delCost |-> PodAttr[p].delCost,
-                prio |-> PodAttr[p].prio, rv |-> 0]
+MkPod(p, n, sh) == LET a == PodAttr[p][sh] IN
+    [ex |-> TRUE, name |-> p, node |-> n, term |-> FALSE, ds |-> a.ds, cpu |-> a.cpu, mem |-> a.mem, port |-> a.port,
+     vol |-> a.vol, delCost |-> a.delCost, prio |-> a.prio, rv |-> 0]
 
 \* ---------------------------------------------------------------- the cache
-NewSN == [ex |-> FALSE, node |-> NoNode, claim |-> NoClaim, req |-> {}, dreq |-> {}, cost |-> {}, hp |-> {}, vol |-> {},
-          marked |-> FALSE]
+\* the per-pod maps of a StateNode (podRequests, daemonSetRequests, podDisruptionCosts, hostPortUsage.reserved,
+\* volumeUsage.podVolumes): pod key -> the shape recorded for it ("none" = no entry); volu = volumeUsage.volumes
+NoPods == [p \in PodKeys |-> "none"]
+NewSN == [ex |-> FALSE, node |-> NoNode, claim |-> NoClaim, req |-> NoPods, dreq |-> NoPods, cost |-> NoPods, hp |-> NoPods,
+          vol |-> NoPods, volu |-> {}, marked |-> FALSE]
 ZeroTot == [cpu |-> 0, mem |-> 0, nodes |-> 0]
 C0 == [cn |-> [k \in Keys |-> NewSN], bind |-> [p \in PodKeys |-> "-"], n2p |-> [n \in NodeNames |-> "-"],
        c2p |-> [c \in ClaimNames |-> "-"], pool |-> [pl \in Pools |-> ZeroTot],
@@ -94,13 +109,23 @@ PoolUpd(c, old, new) ==
         p2 == IF SNPool(new) \in Pools THEN [p1 EXCEPT ![SNPool(new)] = TotAdd(@, SNRes(new))] ELSE p1
     IN [c EXCEPT !.pool = p2]
 
-\* StateNode.updateForPod / cleanupForPod (per-pod map entries, as key sets)
-UpdateForPod(s, p) ==
-    [s EXCEPT !.req = @ \cup {p}, !.dreq = IF PodAttr[p].ds THEN @ \cup {p} ELSE @,
-              !.cost = IF PodAttr[p].ds THEN @ ELSE IF EvCost(PodAttr[p]) > 0 THEN @ \cup {p} ELSE @ \ {p},
-              !.hp = @ \cup {p}, !.vol = @ \cup {p}]
-CleanupForPod(s, p) == [s EXCEPT !.req = @ \ {p}, !.dreq = @ \ {p}, !.cost = @ \ {p}, !.hp = @ \ {p}, !.vol = @ \ {p}]
-NoUsage(s) == [s EXCEPT !.req = {}, !.dreq = {}, !.cost = {}, !.hp = {}, !.vol = {}]
+VolNames(p, sh) == {PodAttr[p][sh].vol} \ {"-"}
+VolsOfMap(m) == UNION {VolNames(p, m[p]) : p \in {q \in PodKeys : m[q] # "none"}}
+\* StateNode.updateForPod(pod of shape sh) / cleanupForPod
+UpdateForPod(s, p, sh) ==
+    LET a == PodAttr[p][sh]
+        vol2 == [s.vol EXCEPT ![p] = sh]
+    IN [s EXCEPT !.req[p] = sh, !.dreq[p] = IF a.ds THEN sh ELSE @,
+                 !.cost[p] = IF a.ds THEN @ ELSE IF EvCost(a) > 0 THEN sh ELSE "none",
+                 !.hp[p] = sh, !.vol = vol2,
+                 \* VolumeUsage.Add: the pinned tree only unions the new volumes in
+                 !.volu = IF "volUnion" \in Defects THEN @ \cup VolNames(p, sh) ELSE VolsOfMap(vol2)]
+DropPods(s, R) ==       \* cleanupForPod for every pod of R (VolumeUsage.DeletePod recomputes the union)
+    LET cut(m) == [p \in PodKeys |-> IF p \in R THEN "none" ELSE m[p]]
+    IN IF R = {} THEN s
+       ELSE [s EXCEPT !.req = cut(@), !.dreq = cut(@), !.cost = cut(@), !.hp = cut(@), !.vol = cut(@), !.volu = VolsOfMap(cut(s.vol))]
+CleanupForPod(s, p) == DropPods(s, {p})
+NoUsage(s) == [s EXCEPT !.req = NoPods, !.dreq = NoPods, !.cost = NoPods, !.hp = NoPods, !.vol = NoPods, !.volu = {}]
 
 \* Cluster.cleanupOldBindings(pod) for a pod now bound to node nn
 CleanupOldBindings(c, p, nn) ==
@@ -141,15 +166,17 @@ UpdateNodeOp(c, obj, pods) ==
     LET k == IF obj.pid = "" THEN obj.name ELSE obj.pid
         old == c.cn[k]
         S == {p \in PodKeys : pods[p].ex /\ pods[p].node = obj.name /\ ~pods[p].term}
+        sh(p) == ShapeOfRec(pods[p])
         \* pods of S previously bound elsewhere leave their old state node (cleanupOldBindings)
         Moved(k2) == IF "skipOldBindings" \in Defects THEN {}
                      ELSE {p \in S : c.bind[p] \notin {"-", obj.name} /\ c.n2p[c.bind[p]] = k2 /\ c.cn[k2].ex}
-        c1 == [c EXCEPT !.cn = [k2 \in Keys |->
-                                  [c.cn[k2] EXCEPT !.req = @ \ Moved(k2), !.dreq = @ \ Moved(k2), !.cost = @ \ Moved(k2),
-                                                   !.hp = @ \ Moved(k2), !.vol = @ \ Moved(k2)]],
+        c1 == [c EXCEPT !.cn = [k2 \in Keys |-> DropPods(c.cn[k2], Moved(k2))],
                         !.bind = [p \in PodKeys |-> IF p \in S THEN obj.name ELSE c.bind[p]]]
-        n == [ex |-> TRUE, node |-> obj, claim |-> old.claim, req |-> S, dreq |-> {p \in S : PodAttr[p].ds},
-              cost |-> {p \in S : ~PodAttr[p].ds /\ EvCost(PodAttr[p]) > 0}, hp |-> S, vol |-> S,
+        all == [p \in PodKeys |-> IF p \in S THEN sh(p) ELSE "none"]
+        n == [ex |-> TRUE, node |-> obj, claim |-> old.claim, req |-> all,
+              dreq |-> [p \in PodKeys |-> IF p \in S /\ pods[p].ds THEN sh(p) ELSE "none"],
+              cost |-> [p \in PodKeys |-> IF p \in S /\ ~pods[p].ds /\ EvCost(pods[p]) > 0 THEN sh(p) ELSE "none"],
+              hp |-> all, vol |-> all, volu |-> VolsOfMap(all),
               marked |-> old.marked /\ "markCarry" \notin Defects]
         c2 == IF c1.n2p[obj.name] \notin {"-", k} THEN CleanupNodeOp(c1, obj.name) ELSE c1
         c3 == PoolUpd(c2, old, n)
@@ -161,8 +188,8 @@ UpdateClaimOp(c, obj) ==
         c1 == IF pid = "" THEN c
               ELSE LET old == c.cn[pid]
                        n == [old EXCEPT !.ex = TRUE, !.claim = obj,
-                                        !.cost = IF "costCarry" \in Defects THEN {} ELSE @,
-                                        !.hp = IF "hpCarry" \in Defects THEN {} ELSE @]
+                                        !.cost = IF "costCarry" \in Defects THEN NoPods ELSE @,
+                                        !.hp = IF "hpCarry" \in Defects THEN NoPods ELSE @]
                        ca == IF c.c2p[obj.name] \notin {"-", pid} THEN CleanupClaimOp(c, obj.name) ELSE c
                    IN [PoolUpd(ca, old, n) EXCEPT !.cn[pid] = n]
         mk == pid # "" /\ SNMarked(c1.cn[pid])
@@ -185,7 +212,7 @@ UpdatePodOp(c, obj) ==
     ELSE IF obj.node = "" THEN <<IF "podUnbound" \in Defects THEN c ELSE CompletionOp(c, obj.name), FALSE>>
     ELSE LET k == c.n2p[obj.node]
          IN IF k = "-" \/ ~c.cn[k].ex THEN <<c, TRUE>>       \* node unknown: NotFound -> requeue
-            ELSE LET c1 == [c EXCEPT !.cn[k] = UpdateForPod(@, obj.name)]
+            ELSE LET c1 == [c EXCEPT !.cn[k] = UpdateForPod(@, obj.name, ShapeOfRec(obj))]
                      c2 == CleanupOldBindings(c1, obj.name, obj.node)
                  IN <<[c2 EXCEPT !.bind[obj.name] = obj.node], FALSE>>
 
@@ -201,12 +228,14 @@ UnmarkOp(c, k) ==
        ELSE c1
 
 \* ---------------------------------------------------------------- what the accessors show (same shape as F)
-PodStatic == [p \in PodKeys |-> PodAttr[p]]
+\* a per-pod map read back: the pods with an entry, each with the attributes of the shape recorded for it
+Held(m) == {p \in PodKeys : m[p] # "none"}
+AsPods(m) == [p \in PodKeys |-> PodAttr[p][IF m[p] = "none" THEN "std" ELSE m[p]]]
 View(c) ==
     [sn |-> [k \in Keys |-> LET s == c.cn[k] IN
-               [ex |-> s.ex, node |-> s.node, claim |-> s.claim, req |-> ReqOf(PodStatic, s.req),
-                dreq |-> ReqOf(PodStatic, s.dreq), cost |-> CostOf(PodStatic, s.cost), ports |-> PortsOf(PodStatic, s.hp),
-                vols |-> VolsOf(PodStatic, s.vol), marked |-> s.ex /\ SNMarked(s)]],
+               [ex |-> s.ex, node |-> s.node, claim |-> s.claim, req |-> ReqOf(AsPods(s.req), Held(s.req)),
+                dreq |-> ReqOf(AsPods(s.dreq), Held(s.dreq)), cost |-> CostOf(AsPods(s.cost), Held(s.cost)),
+                ports |-> PortsOf(AsPods(s.hp), Held(s.hp)), vols |-> s.volu, marked |-> s.ex /\ SNMarked(s)]],
      pool |-> c.pool,
      counts |-> [pl \in Pools |-> [active |-> Cardinality(c.act[pl]), deleting |-> Cardinality(c.dl[pl])]]]
 
@@ -285,10 +314,10 @@ RemoveClaim(c) ==
     /\ Mut("NodeClaim", c) /\ Step("RemoveClaim", c, "-", "-")
 \* pods are created pending or already bound; binding is immutable once set (a pod "moves" by being
 \* deleted and recreated under the same name)
-CreatePod(p, n) ==
+CreatePod(p, n, sh) ==
     /\ ~api.pods[p].ex /\ (n # "" => api.nodes[n].ex)
-    /\ api' = [api EXCEPT !.pods[p] = MkPod(p, n)] /\ UNCHANGED <<own, gone, seed>>
-    /\ Mut("Pod", p) /\ Step("CreatePod", p, n, "-")
+    /\ api' = [api EXCEPT !.pods[p] = MkPod(p, n, sh)] /\ UNCHANGED <<own, gone, seed>>
+    /\ Mut("Pod", p) /\ Step("CreatePod", p, n, IF sh = "alt" THEN "alt" ELSE "-")
 BindPod(p, n) ==
     /\ api.pods[p].ex /\ api.pods[p].node = "" /\ ~api.pods[p].term /\ api.nodes[n].ex
     /\ api' = [api EXCEPT !.pods[p].node = n] /\ UNCHANGED <<own, gone, seed>>
@@ -355,7 +384,7 @@ EnvNext ==
                              \/ Seed(c)
                              \/ \E pid \in Pids : SetClaimPid(c, pid)
                              \/ ClaimDeleting(c) \/ ClaimTerminating(c) \/ RemoveClaim(c)
-    \/ \E p \in PodKeys : \/ \E n \in NodeNames \cup {""} : CreatePod(p, n)
+    \/ \E p \in PodKeys : \/ \E n \in NodeNames \cup {""}, sh \in PodShapes : CreatePod(p, n, sh)
                           \/ \E n \in NodeNames : BindPod(p, n)
                           \/ PodTerminal(p) \/ RemovePod(p)
     \/ \E k \in Keys : Mark(k) \/ Unmark(k)
